@@ -936,11 +936,17 @@ impl StepOracle for NoFreeValueOracle {
         if !c.res.committed {
             return;
         }
-        let (u, b) = match c.a {
+        // an instruction re-issued with a look-alike in the place of one of the bank's vaults is judged like the
+        // instruction itself: the position may be credited only what reached the bank's real vault
+        let a_eff: &Action = match c.a {
+            Action::WithVaultSwap { base, .. } => base.as_ref(),
+            x => x,
+        };
+        let (u, b) = match a_eff {
             Action::Deposit { u, b, .. } | Action::Withdraw { u, b, .. } | Action::Borrow { u, b, .. } | Action::Repay { u, b, .. } | Action::CloseBalance { u, b } => (*u, *b),
             _ => return,
         };
-        let closing = matches!(c.a, Action::CloseBalance { .. });
+        let closing = matches!(a_eff, Action::CloseBalance { .. });
         let (pn, qn) = (&c.pre_nums[b], &c.post_nums[b]);
         let bh = &c.w.banks[b];
         let ta = c.w.users[u].tokens[&bh.mint];
@@ -982,7 +988,7 @@ impl StepOracle for NoFreeValueOracle {
         }
         // the bank's side of the same operation: what leaves the liquidity vault (a transfer-fee mint withholds part
         // of it on the way to the user) is at most what the position was debited
-        if matches!(c.a, Action::Withdraw { .. } | Action::Borrow { .. }) {
+        if matches!(a_eff, Action::Withdraw { .. } | Action::Borrow { .. }) {
             let v0 = world::token_amount(&c.pre.s, &bh.lv) as i128;
             let v1 = world::token_amount(c.post, &bh.lv) as i128;
             let paid_out = rf::qi(v0 - v1);
@@ -998,8 +1004,8 @@ impl StepOracle for NoFreeValueOracle {
         // ... and what a position is credited on the way in (deposit, repayment) is at most what arrived in the
         // liquidity vault (a transfer-fee mint withholds part of what the user sent); the risk admin's sanctioned
         // token-less repayment on a bank flagged for it is the one credit without tokens
-        let tokenless_ok = matches!(c.a, Action::Repay { all: true, .. }) && world::try_bank(&c.pre.s, &bh.key).map(|x| x.flags & marginfi_type_crate::constants::TOKENLESS_REPAYMENTS_ALLOWED != 0).unwrap_or(false);
-        if matches!(c.a, Action::Deposit { .. } | Action::Repay { .. }) && !tokenless_ok {
+        let tokenless_ok = matches!(a_eff, Action::Repay { all: true, .. }) && world::try_bank(&c.pre.s, &bh.key).map(|x| x.flags & marginfi_type_crate::constants::TOKENLESS_REPAYMENTS_ALLOWED != 0).unwrap_or(false);
+        if matches!(a_eff, Action::Deposit { .. } | Action::Repay { .. }) && !tokenless_ok {
             let v0 = world::token_amount(&c.pre.s, &bh.lv) as i128;
             let v1 = world::token_amount(c.post, &bh.lv) as i128;
             let received = rf::qi(v1 - v0);
